@@ -166,6 +166,10 @@ func NewFSM(path string, localID string, logger log.Logger) (*FSM, error) {
 		return nil, fmt.Errorf("failed to open bolt file: %w", err)
 	}
 
+	// Writes applied before this point are not known to the in-memory fast
+	// application tracker.
+	f.fastTxnTracker.reset(f.latestIndex.Load())
+
 	return f, nil
 }
 
@@ -1087,6 +1091,10 @@ func (f *FSM) Restore(r io.ReadCloser) error {
 		f.logger.Error("failed to open new database file", "error", err)
 		retErr = multierror.Append(retErr, fmt.Errorf("failed to open new bolt file: %w", err))
 	}
+
+	// The database was replaced: whatever the fast application tracker has
+	// seen does not describe the writes contained in the snapshot.
+	f.fastTxnTracker.reset(f.latestIndex.Load())
 
 	// Handle local node config restore. lnConfig should not be nil here, but
 	// adding the nil check anyways for safety.
